@@ -295,15 +295,15 @@ func c10Spaces(tier string) []pairLeg {
 		add("hostile-arrays", HostileArrays())
 	} else {
 		add("A2x6", Arr(2, "6"))
-		add("A4x123", Arr(4, "123"))
+		add("A3x123", Arr(3, "123"))
 		for _, p := range gen.Placements[1:] {
 			add("A2x12@"+p.Name, Placed(Arr(2, "12"), p))
 		}
 		add("U3", thin(noVoid(U(3)), 60))
 		add("hostile", thin(HostileDocs(), 40))
 		add("deep", Deep(false))
-		add("mixed", Mixed())
-		add("hostile-arrays", HostileArrays())
+		add("mixed", thin(Mixed(), 50))
+		add("hostile-arrays", thin(HostileArrays(), 60))
 	}
 	return legs
 }
